@@ -420,6 +420,78 @@ func runC04(c *Ctx) {
 	} else {
 		r5.AnchorLost("gqlerror.ErrorLocf")
 	}
+	// an error names ONE file: locations are attached only where the file of the same position is recorded with them —
+	// the gqlerror constructors and the At(position) option. A location appended anywhere else has no file of its own
+	// and is read as belonging to the file the error already names.
+	errT := p.LookupType("gqlerror", "Error")
+	if errT == nil {
+		r5.AnchorLost("gqlerror.Error")
+		return
+	}
+	nw := 0
+	for _, fn := range p.Funcs() {
+		for _, s := range storesToField([]*ssa.Function{fn}, errT, "Locations") {
+			nw++
+			pk := p.PkgOf(fn)
+			site := "Error.Locations written in " + p.FuncName(fn)
+			switch {
+			case pk != nil && strings.HasSuffix(pk.PkgPath, "/gqlerror"):
+				r5.OK(site, "a constructor of package gqlerror")
+			case locationWithFile(s.store, fn):
+				r5.OK(site, "line and column are taken from the position whose Src.Name the same function records as the error's file")
+			default:
+				r5.Fail(s.store.Pos(), p.FuncName(fn), "a location attached without its file", "a Location is appended to an error outside the constructors and without recording the file of the position it comes from: the error names one file, and this location — possibly from another source (a definition and its extension in two files) — is read as a place in that file, where it may not be a token start or may lie past the end")
+			}
+		}
+	}
+	// composite literals of Error with Locations set are constructors too: only package gqlerror makes them
+	for _, fn := range p.Funcs() {
+		pk := p.PkgOf(fn)
+		if pk != nil && strings.HasSuffix(pk.PkgPath, "/gqlerror") {
+			continue
+		}
+		allInstrs(fn, func(in ssa.Instruction) {
+			if a, ok := in.(*ssa.Alloc); ok && namedOf(a.Type()) == errT && len(fieldStores(a, "Locations")) > 0 {
+				nw++
+			}
+		})
+	}
+	if nw == 0 {
+		r5.AnchorLost("writers of gqlerror.Error.Locations")
+	}
+}
+
+// locationWithFile: the function that appends the Location also records a file taken from the same position value
+// (validator.At: position.Line/Column and err.SetFile(position.Src.Name)).
+func locationWithFile(st *ssa.Store, fn *ssa.Function) bool {
+	// the positions whose Line is read in fn, and the positions whose Src.Name is handed to SetFile
+	lines := map[string]bool{}
+	files := map[string]bool{}
+	allInstrs(fn, func(in ssa.Instruction) {
+		if v, ok := in.(ssa.Value); ok {
+			if b, f := posFieldBase(v); b != nil && f == "Line" {
+				lines[baseKey(b)] = true
+			}
+		}
+		ci, isCall := in.(ssa.CallInstruction)
+		if !isCall || ci.Common().StaticCallee() == nil || ci.Common().StaticCallee().Name() != "SetFile" {
+			return
+		}
+		for _, a := range ci.Common().Args {
+			if b, f := posFieldBase(a); b != nil && f == "Src.Name" {
+				files[baseKey(b)] = true
+			}
+		}
+	})
+	if len(lines) == 0 {
+		return false
+	}
+	for k := range lines {
+		if !files[k] {
+			return false
+		}
+	}
+	return true
 }
 
 // runeDeltaKind classifies what a value added to the rune cursor counts.
